@@ -28,7 +28,7 @@ OPS = (['compute', 'misfit', 'gradient', 'jvec', 'jtvec', 'get_efield',
        [f'dict:{w}' for w in WHATS_COPY] +
        [f'file:{f}:{w}' for f in ('h5', 'npz', 'json')
         for w in ('computed', 'results', 'plain')] +
-       ['model:m2', 'noise:n2'])
+       ['model:m2', 'noise:n2', 'model-inplace:m2'])
 
 RTOL = 1e-6
 
@@ -44,7 +44,7 @@ def make_model(pid, mid):
     g = grid_()
     r = zoo.rng('c12', pid, mid)
     sh = tuple(g.shape_cells)
-    if pid == 'P1':
+    if pid in ('P1', 'P3'):
         return emg3d.Model(g, 10**r.uniform(-1, 0.5, sh))
     return emg3d.Model(g, r.uniform(-1, 0.5, sh), r.uniform(-1, 0.5, sh),
                        r.uniform(-1, 0.5, sh), mapping='LgConductivity')
@@ -52,7 +52,7 @@ def make_model(pid, mid):
 
 def make_survey(pid):
     import emg3d
-    if pid == 'P1':
+    if pid in ('P1', 'P3'):
         srcs = [emg3d.TxElectricDipole((-60., 20., -200., 30., 10.))]
         freqs = [1.0, 2.5]
     else:
@@ -75,13 +75,13 @@ def make_survey(pid):
 
 
 def solver_opts(pid):
-    if pid == 'P1':
+    if pid in ('P1', 'P3'):
         return {'tol': 1e-10}
     return {'tol': 1e-10, 'tol_gradient': 1e-5}
 
 
 def gtol(pid):
-    return RTOL if pid == 'P1' else 2e-3
+    return RTOL if pid in ('P1', 'P3') else 2e-3
 
 
 NOISE = {'n1': (1e-13, 0.05), 'n2': (4e-13, 0.11)}
@@ -91,16 +91,23 @@ def new_sim(pid, mid, file_dir=None, nid='n1'):
     import emg3d
     survey = make_survey(pid)
     survey.noise_floor, survey.relative_error = NOISE[nid]
+    gkw = {'gridding': 'same'}
+    if pid == 'P3':
+        # a user-given computational grid other than the model grid (same
+        # number of cells): model and fields pass through the interpolation
+        hs = [np.array([100., 115, 95, 120])*s_ for s_ in (1.1, 1.0, 1.05)]
+        gkw = {'gridding': 'input', 'gridding_opts': emg3d.TensorMesh(
+            hs, origin=(-215., -215., -400.))}
     return emg3d.Simulation(
         survey, make_model(pid, mid), max_workers=1,
-        gridding='same', receiver_interpolation='linear', file_dir=file_dir,
-        tqdm_opts=False, solver_opts=solver_opts(pid), verb=-1)
+        receiver_interpolation='linear', file_dir=file_dir,
+        tqdm_opts=False, solver_opts=solver_opts(pid), verb=-1, **gkw)
 
 
 def vectors(pid):
     sim_shape = tuple(grid_().shape_cells)
     r = zoo.rng('c12', 'vec', pid)
-    n = 1 if pid == 'P1' else 3
+    n = 1 if pid in ('P1', 'P3') else 3
     v = r.standard_normal((n,) + sim_shape)
     if n == 1:
         v = v[0]
@@ -274,6 +281,14 @@ def apply(op, st, ref, viol, pid):
         st['mid'] = op.split(':')[1]
         S.model = make_model(pid, st['mid'])
         S.clean('all')
+    elif op.startswith('model-inplace:'):
+        # the model OBJECT stays, its arrays are overwritten in place
+        st['mid'] = op.split(':')[1]
+        m2 = make_model(pid, st['mid'])
+        for name in ('property_x', 'property_y', 'property_z'):
+            if getattr(S.model, name) is not None:
+                getattr(S.model, name)[...] = getattr(m2, name)
+        S.clean('all')
     elif op.startswith('noise:'):
         # explicit assignment of the noise model, then the documented clean
         st['nid'] = op.split(':')[1]
@@ -383,9 +398,11 @@ def run(ctx):
             % len(OPS))
     plans = [('P1-memory', 'P1', False, 3 if q else 4),
              ('P2-memory', 'P2', False, 2 if q else 3),
-             ('P1-file_dir', 'P1', True, 2 if q else 3)]
+             ('P1-file_dir', 'P1', True, 2 if q else 3),
+             ('P3-input-grid', 'P3', False, 2 if q else 3)]
     budget = ctx.budget or (960 if q else 6000)
-    share = {'P1-memory': 0.5, 'P2-memory': 0.25, 'P1-file_dir': 0.25}
+    share = {'P1-memory': 0.4, 'P2-memory': 0.2, 'P1-file_dir': 0.2,
+             'P3-input-grid': 0.2}
     for name, pid, fm, depth in plans:
         if not ctx.wants(name):
             continue
